@@ -89,3 +89,35 @@ Proof.
   split; [|split; vm_compute; reflexivity].
   unfold reg_coherent. vm_compute plan_acts. repeat constructor; intros _; vm_compute; reflexivity.
 Qed.
+
+(* ---- item 4: coq/select's six-plan example store (all submit times equal): the same four ids from Select's search
+        and from the real query on both back ends, same order; with different submit times the real query
+        answers newest first, Select in store order: equal as sets, different as lists *)
+From Coercion.Select Require Rows Select SelectExamples.
+From Coercion.Query Require Rows Query QueryCheck.
+From Coercion.Glue Require Import GlueSearch GlueSearchHistory.
+
+Definition ex4_ids (r : option (list QQ.sev)) : option (list N) :=
+  option_map (fun tr => map QQ.x_id (QueryCheck.items_of tr)) r.
+
+Example ex4_same_ids :
+  SL.search_running SelectExamples.ex_store = [30; 40; 50; 60]%N /\
+  ex4_ids (QQ.sq_search running_filter (table_of SelectExamples.ex_store)) = Some [30; 40; 50; 60]%N /\
+  ex4_ids (QQ.cosmos_search 5 running_filter (cstore_of 5 SelectExamples.ex_store)) = Some [30; 40; 50; 60]%N /\
+  QR.sq_run (creates_of SelectExamples.ex_store) = table_of SelectExamples.ex_store.
+Proof. vm_compute. repeat split; reflexivity. Qed.
+
+Definition with_submit (t : Z) (p : plan) : plan :=
+  {| p_id := p_id p; p_group := p_group p; p_name := p_name p; p_descr := p_descr p; p_meta := p_meta p;
+     p_bypass := p_bypass p; p_pre := p_pre p; p_cont := p_cont p; p_post := p_post p; p_deferred := p_deferred p;
+     p_blocks := p_blocks p; p_state := p_state p; p_submit := t; p_reason := p_reason p |}.
+
+Definition ex4_store : SR.store :=
+  [with_submit 5 SelectExamples.ex_aged; with_submit 2 SelectExamples.ex_done;
+   with_submit 9 SelectExamples.ex_live; with_submit 7 SelectExamples.ex_zero].
+
+Example ex4_order_differs :
+  SL.search_running ex4_store = [30; 40; 50]%N /\
+  ex4_ids (QQ.sq_search running_filter (table_of ex4_store)) = Some [40; 50; 30]%N /\
+  ex4_ids (QQ.cosmos_search 5 running_filter (cstore_of 5 ex4_store)) = Some [40; 50; 30]%N.
+Proof. vm_compute. repeat split; reflexivity. Qed.
